@@ -69,4 +69,50 @@ PROPS = {
         "assumptions": ["keys are ASCII; empty values and zero-length ranges are not sent to object_store/opendal back ends (as the property states)"],
         "timeout": 3000,
     },
+    "C19": {
+        "claimed": False,
+        "lean_props": ["ZarrsModel.Props.C19"],
+        "harness": "c19",
+        "rule": "every enumerated public operation (array open / metadata_opt / store_metadata / builder rebuild / to_v3 / CodecChain::from_metadata / "
+                "CodecOptions+ArrayMetadataOptions+GroupMetadataOptions defaults / write+read+partial-decode+erase / partial-encode / erase_metadata / group+node operations) "
+                "x configurations (hand-written V2 documents incl. order F and fixedscaleoffset filter, V3 fixedscaleoffset, doubly nested sharding, and generated chains over all "
+                "registered codecs) runs on a single logical call stack (rayon pool of one thread) with hook H3 recording for each acquisition of the configuration lock whether "
+                "it was completely free; the driver requires a flat trace; non-trivial = distinct (operation, configuration) with at least one acquisition",
+        "nontrivial": lambda l: " -> val probes=1" in l,
+        "exhaustive": False,
+        "trusted_base": COMMON_TB + ["hook H3 (try_write probe in global_config/global_config_mut, cfg(zarrs_verif)); std RwLock writer preference is modelled, not verified",
+                                     "an operation not enumerated by the harness is not covered by the monitored hypothesis 'its trace is flat'"],
+        "assumptions": ["single logical call stack during probing (rayon pool of one thread); other threads do not touch the configuration while an operation is probed"],
+    },
+    "C06": {
+        "claimed": False,
+        "lean_props": ["ZarrsModel.Props.C06"],
+        "harness": "c06",
+        "rule": "random configuration (all data types, grids, key encodings, chains incl. nested sharding/transposes/compressors/checksums; half of them sharded) + random write history, "
+                "then 8..24 (thorough 10..60) reads with repeats through: retrieve_chunk/_if_exists/chunks/chunk_subset/array_subset, typed element and ndarray forms, partial_decoder with "
+                "two regions, the sharded-extension routes (inner chunk, inner chunks, sharded array subset, effective inner chunk shape) with their shard-index cache, and 2-3 of the 8 "
+                "chunk-cache flavours at capacities {0,1,2,1000} chunks / {0,1,16,64,2^20} bytes; every route is compared with the model's plain read of the same region; "
+                "non-trivial = distinct read request returning at least one non-fill element through a non-plain route",
+        "nontrivial": lambda l: " -> val " in l and any(v in l for v in (" cached_", " typed_", " nd_", " pd ", " inner_", " sharded_")),
+        "exhaustive": False,
+        "trusted_base": COMMON_TB + ["moka / lru crate internals are abstracted to get/insert/evict-some (any eviction that never invents entries)"],
+        "assumptions": ["the store is unchanged between the reads of one case"],
+    },
+    "C01": {
+        "claimed": False,
+        "lean_props": ["ZarrsModel.Props.C01"],
+        "harness": "c01",
+        "rule": "random configuration: 12 data types (fixed and variable length; NaN/-0.0/non-empty-string fills), rank 0..3, regular (ragged edge) and rectangular grids, 4 key encodings, "
+                "root/nested paths, chains over every registered lossless codec (transpose, squeeze, bytes both endians, packbits, pcodec, vlen, vlen_v2, vlen-utf8/bytes, sharding nested to depth 2 "
+                "with both index locations, gzip, zstd, blosc, bz2, zlib, gdeflate, shuffle, crc32c, fletcher32), store_empty_chunks on/off, stores memory/fs/object_store/opendal/usage-log; "
+                "history of 1..12 (thorough 1..40) store_chunk/store_chunks/store_chunk_subset/store_array_subset/erase_chunk/erase_chunks with interleaved reads; then every chunk, the whole array, "
+                "all chunks and random regions through the same handle and through a handle re-opened from the stored metadata, and the key listing; each outcome is compared with the model and "
+                "with the abstract array; non-trivial = distinct read request returning at least one non-fill element",
+        "nontrivial": lambda l: " op retrieve" in l and " -> val " in l,
+        "exhaustive": False,
+        "trusted_base": COMMON_TB + ["external compressors (flate2, zstd, blosc, bzip2, gdeflate, pco) enter only through the law 'decode(encode x) = x', assumed in the theorems and exercised by the harness",
+                                     "Element/ndarray conversions are exercised (C06), not modelled"],
+        "assumptions": ["regions and chunk indices in bounds (the quantifier of the property)"],
+        "timeout": 3000,
+    },
 }
